@@ -572,8 +572,12 @@ fn cmd_sections(a: &str) -> String {
         None => return "badcase".into(),
     };
     guard(|| {
+        let same = reserialised_sections_equal(ev.clone());
         let mut reader = Reader::new(Script::new(ev));
         let mut out = vec![];
+        if !same {
+            out.push("NOTEQUAL-file".to_string());
+        }
         let mut it = reader.sections();
         let mut ended = false;
         for _ in 0..CAP {
@@ -602,6 +606,35 @@ fn cmd_sections(a: &str) -> String {
         out.push(if ended { "end".into() } else { "cap".into() });
         out.join(" ")
     })
+}
+
+/// C13, whole files, in the crate's own sense of equality: the sections of the stream up to its first error, re-serialised
+/// (header line, data lines, blank line), must parse back to sections that are `==` to the originals.
+fn reserialised_sections_equal(ev: Vec<Event>) -> bool {
+    let mut reader = Reader::new(Script::new(ev));
+    let mut secs: Vec<Section> = vec![];
+    for x in reader.sections().take(CAP) {
+        match x {
+            Ok(s) => secs.push(s),
+            Err(_) => break,
+        }
+    }
+    let mut text = String::new();
+    for s in &secs {
+        text.push_str(&s.header().to_string());
+        text.push('\n');
+        for d in s.data().iter() {
+            text.push_str(&d.to_string());
+            text.push('\n');
+        }
+        text.push('\n');
+    }
+    let mut again = Reader::new(Script::new(vec![Event::Chunk(text.into_bytes())]));
+    let back: Vec<Section> = match again.sections().take(CAP + 1).collect::<Result<Vec<_>, _>>() {
+        Ok(v) => v,
+        Err(_) => return false,
+    };
+    back == secs
 }
 
 fn show_parsed_io(r: &io::Result<Line>) -> String {
